@@ -126,10 +126,18 @@ Proof.
   eapply co_trans; [apply co_unregister|]. apply co_register. rewrite sess_unregister. exact Hc.
 Qed.
 
+Lemma co_update_auth_core v c x s : ctl_only s (update_auth_core v c x s).
+Proof.
+  unfold update_auth_core. destruct (get c (reg s)) as [r|] eqn:E; [|apply co_refl].
+  eapply co_trans; [apply (co_set_reg c); left; rewrite E; discriminate|apply co_set_idx].
+Qed.
+
 Lemma co_update_auth v c x s : ctl_only s (update_auth v c x s).
 Proof.
-  unfold update_auth. destruct (get c (reg s)) as [r|] eqn:E; [|apply co_refl].
-  eapply co_trans; [apply (co_set_reg c); left; rewrite E; discriminate|apply co_set_idx].
+  unfold update_auth. destruct (get c (reg s)); [|apply co_refl].
+  eapply co_trans; [|apply co_update_auth_core].
+  destruct (evicts v); [|apply co_refl]. unfold evict_holder. destruct (get x (idx s)) as [o|]; [|apply co_refl].
+  destruct (o =? c); [apply co_refl|apply co_registry_remove].
 Qed.
 
 Lemma co_reconcile v c s : ctl_only s (reconcile v c s).
